@@ -5,6 +5,7 @@ CONSTANTS MaxRuns = 2
   BufSizes = {2}
   Edges1 <- E1
   EdgesY <- EY
+  Caches = {FALSE}
   WriteAlways = TRUE
 VIEW view
 INVARIANT PerBranch
